@@ -252,7 +252,7 @@ def leaf_role(ctx, anchor, b, what, ret=None, effects=None, key="role"):
         true = frozenset([frozenset()])
         eff = []
         for bi, t, tm in b.real_calls():
-            if mut_args_of(b, t) or b.guard(bi) != true:
+            if mut_args_of(b, t):
                 eff.append(render(tm)[:200] + ("" if b.guard(bi) == true else " IF " + mir.render_guard(b.guard(bi))[:120]))
         for bi, si, path, value, s in b.stores():
             eff.append("%s <- %s" % (render(path), render(value)[:160]) + ("" if b.guard(bi) == true else " IF " + mir.render_guard(b.guard(bi))[:120]))
@@ -279,3 +279,46 @@ def summary_forwarders(ctx):
         ctx.check("TradingSummaryGenerator::" + fn, len(fw) == 1 and fw[0][1] == want and fb.guard(fw[0][0]) == frozenset([frozenset()]),
                   "every snapshot / closed position is forwarded, unconditionally, to the tear sheet keyed by its own asset / instrument",
                   got=[(x[1][:160], render_guard(fb.guard(x[0]))[:120]) for x in fw], key="forward-every")
+
+
+def canon_atom(a):
+    """rendered atom with comparisons in canonical orientation (a < b for b > a, ...) and `x == UnitVariant` as `x is Variant`"""
+    c = atoms.atom_cmp(a)
+    if c:
+        op, x, y = c
+        if op in ("eq", "ne"):
+            for u, v in ((x, y), (y, x)):
+                if v[0] == "agg" and v[1].startswith("adt:") and not v[3]:
+                    return "%s %s %s" % (render(u), "is" if op == "eq" else "is not", v[1].rsplit("::", 1)[-1])
+            x, y = sorted((x, y), key=render)
+        return "%s(%s, %s)" % (op, render(x), render(y))
+    return mir.render_atom(a)
+
+
+def canon_guard(g):
+    if g == frozenset([frozenset()]):
+        return "true"
+    return " || ".join(sorted("(" + " && ".join(sorted(canon_atom(a) for a in c)) + ")" for c in g))
+
+
+def case_table(b, local=0):
+    """{canonical guard: rendered value} of a local (default: the return place), idiom-independent on an inlined body"""
+    tab = {}
+    for g, t, bi in b.expanded_cases(local):
+        tab.setdefault(canon_guard(g), set()).add(render(t))
+    return {k: sorted(v) for k, v in tab.items()}
+
+
+def effective_owners(facts, d, _seen=None):
+    """the named function(s) responsible for a site: the enclosing function, or - when that is a private helper that no
+    rule names (it would be inlined by sa/inline.py) - the functions that call the helper, transitively"""
+    from sa import inline
+    o = whomay.owner_fn(d)
+    _seen = _seen or set()
+    rec = facts.bodies.get(o)
+    if rec is None or o in _seen or not inline.default_policy(facts, o, rec):
+        return {o}
+    out = set()
+    for cd, bi, sp in lib_callers(facts, o):
+        out |= effective_owners(facts, cd, _seen | {o})
+    return out or {o}
